@@ -1,6 +1,9 @@
 use itertools::Itertools;
 use samlang_ast::{
-  lir::{Expression, Function, FunctionType, GenenalLoopVariable, Sources, Statement, Type},
+  lir::{
+    Expression, Function, FunctionType, GenenalLoopVariable, Sources, Statement, Type,
+    TypeDefinition,
+  },
   mir::{FunctionName, TypeNameId},
 };
 use samlang_heap::PStr;
@@ -157,6 +160,7 @@ fn get_other_functions_used_by_given_function(
 
 fn analyze_used_function_names_and_type_names(
   functions: &Vec<Function>,
+  type_definitions: &[TypeDefinition],
   entry_points: &[FunctionName],
 ) -> (HashSet<PStr>, HashSet<FunctionName>, HashSet<TypeNameId>) {
   let mut used_functions_map = HashMap::new();
@@ -193,6 +197,22 @@ fn analyze_used_function_names_and_type_names(
       }
     }
   }
+  // A used type definition keeps the types it refers to (fields, enum parent) alive.
+  let type_def_map: HashMap<_, _> = type_definitions.iter().map(|it| (it.name, it)).collect();
+  let mut used_types_worklist_stack = used_types.iter().copied().collect_vec();
+  while let Some(used_type) = used_types_worklist_stack.pop() {
+    if let Some(type_def) = type_def_map.get(&used_type) {
+      let mut referenced_types: HashSet<_> = type_def.parent_type.into_iter().collect();
+      for t in &type_def.mappings {
+        collect_for_type_set(t, &mut referenced_types);
+      }
+      for t in referenced_types {
+        if used_types.insert(t) {
+          used_types_worklist_stack.push(t);
+        }
+      }
+    }
+  }
 
   (used_str_names, used_fn_names, used_types)
 }
@@ -201,7 +221,7 @@ pub(super) fn optimize_lir_sources_by_eliminating_unused_ones(
   Sources { symbol_table, global_variables, type_definitions, main_function_names, functions }: Sources,
 ) -> Sources {
   let (used_str_names, used_fn_names, used_types) =
-    analyze_used_function_names_and_type_names(&functions, &main_function_names);
+    analyze_used_function_names_and_type_names(&functions, &type_definitions, &main_function_names);
   Sources {
     symbol_table,
     global_variables: global_variables
